@@ -334,3 +334,73 @@ func TestVerifC09Table(t *testing.T) {
 		}
 	}
 }
+
+// TestVerifC09TickingClock: the clock is not frozen while a file is opened. Every
+// reading of the current time is a little later than the one before (and the
+// sequence may cross midnight), as with a real clock. The span must still be
+// one consistent span: it begins at 00:00 UTC of a day the clock showed during
+// the open, ends at 00:00 UTC of the first later day on the configured weekday,
+// and the file name carries the begin date.
+func TestVerifC09TickingClock(t *testing.T) {
+	defer vstats.Flush()
+	base := t.TempDir()
+	n := 0
+	rapid.Check(t, func(t *rapid.T) {
+		CrashOnBugs = false
+		n++
+		dir := filepath.Join(base, "tick"+strconv.Itoa(n))
+		defer os.RemoveAll(dir)
+		telemetry.Default = telemetry.NewDir(dir)
+		os.MkdirAll(telemetry.Default.LocalDir(), 0777)
+		telemetry.Default.SetModeAsOf("local", time.Date(2020, 1, 1, 0, 0, 0, 0, time.UTC))
+		day, _ := c09Now(t)
+		midnight := c09Midnight(c09Days(day) + 1)
+		step := rapid.SampledFrom([]time.Duration{time.Nanosecond, time.Microsecond, time.Millisecond, time.Second}).Draw(t, "step")
+		// the first reading lies 0..5 steps before midnight, or anywhere in the day
+		start := midnight.Add(-time.Duration(rapid.IntRange(0, 5).Draw(t, "stepsBeforeMidnight")) * step)
+		if rapid.IntRange(0, 3).Draw(t, "anywhere") == 0 {
+			start = day
+		}
+		digit := rapid.IntRange(0, 6).Draw(t, "digit")
+		os.WriteFile(filepath.Join(telemetry.Default.LocalDir(), "weekends"), []byte(fmt.Sprintf("%d\n", digit)), 0666)
+		var readings []time.Time
+		CounterTime = func() time.Time {
+			tm := start.Add(time.Duration(len(readings)) * step)
+			readings = append(readings, tm)
+			return tm
+		}
+		defer func() { CounterTime = func() time.Time { return time.Now().UTC() } }()
+		f := &file{}
+		defer func() {
+			if m := f.current.Load(); m != nil {
+				m.close()
+			}
+		}()
+		f.rotate1()
+		m := f.current.Load()
+		desc := fmt.Sprintf("clock %s +%v per reading (%d readings) weekends=%d", start.Format(time.RFC3339Nano), step, len(readings), digit)
+		if m == nil {
+			t.Fatalf("%s: opening failed: %v", desc, f.err)
+		}
+		if len(readings) == 0 {
+			t.Fatalf("%s: the clock was never read", desc)
+		}
+		begin, end, _ := c09ReadMeta(t, m.f.Name())
+		first, last := c09Days(readings[0]), c09Days(readings[len(readings)-1])
+		bd := c09Days(begin.UTC())
+		if !begin.Equal(c09Midnight(bd)) || bd < first || bd > last {
+			t.Fatalf("%s: TimeBegin = %s is not 00:00 UTC of a day the clock showed while the file was opened (%s..%s)", desc, begin.Format(time.RFC3339Nano), vmodel.DateString(first), vmodel.DateString(last))
+		}
+		_, wantEnd := vmodel.Span(bd, digit)
+		if !end.Equal(c09Midnight(wantEnd)) {
+			t.Fatalf("%s: the span is %s..%s; the first day after the begin that falls on weekday %d is %s", desc, begin.Format("2006-01-02"), end.Format(time.RFC3339), digit, vmodel.DateString(wantEnd))
+		}
+		if !strings.Contains(filepath.Base(m.f.Name()), "-"+vmodel.DateString(bd)+".v1.count") {
+			t.Fatalf("%s: file name %s does not carry the begin date %s", desc, filepath.Base(m.f.Name()), vmodel.DateString(bd))
+		}
+		crossed := first != last
+		// non-trivial: a few more readings would have crossed midnight
+		near := !start.Before(midnight.Add(-5*step)) && start.Before(midnight)
+		vstats.Case(desc, near, fmt.Sprintf("crossedMidnight:%v", crossed), fmt.Sprintf("nearMidnight:%v", near), fmt.Sprintf("readings:%d", min(len(readings), 6)))
+	})
+}
